@@ -27,7 +27,28 @@ def product():
         if not cfor:
             out.append({"src": pre + "func f(x) { " + head + " { }; return x }; f(5)", "field": "result", "want": "i:5",
                         "why": "the loop variable of `%s` does not overwrite a parameter" % name})
+    # every construct that opens scopes hands back the scope it started in - also when no branch is taken
+    for c in CONSTRUCTS:
+        name = c.replace("\n", " ")[:40]
+        out.append({"src": "x = 1; f = func() { return x }; %s; var x = 2; f()" % c, "field": "result", "want": "i:2",
+                    "why": "after `%s` a var statement binds in the block the construct stands in (seen by a closure of that block)" % name})
+        out.append({"src": "module m { %s; a = 5 }; m.a" % c, "field": "result", "want": "i:5",
+                    "why": "after `%s` an assignment in a module body binds in the module" % name})
+        out.append({"src": "%s; b = 7" % c, "field": "bindings", "want": "b=i:7",
+                    "why": "after `%s` a top-level assignment binds in the environment given to Execute" % name})
+        out.append({"src": "func g() { y = 1; h = func() { return y }; %s; var y = 2; return h() }; g()" % c, "field": "result", "want": "i:2",
+                    "why": "after `%s` inside a function a var statement binds in the function's scope" % name})
     return out
+
+
+CONSTRUCTS = [
+    "if false { }", "if true { }", "if false { } else { }", "if false { } else if false { }", "if false { } else if false { } else if false { }",
+    "if false { } else if true { }", "if true { } else if true { }", "if false { } else if false { } else { }", "if 0 { } else if \"\" { } else if nil { }",
+    "for i in [] { }", "for i in [1] { }", "for i = 0; i < 1; i++ { }", "for false { }", "for i in [1, 2] { if i == 1 { continue }; break }",
+    "switch 1 {\ncase 2: 3\n}", "switch 1 {\ncase 1: 3\n}", "switch 1 {\ndefault: 3\n}", "switch 1 {\ncase 2:\n}",
+    "try { } catch e { }", "try { throw 1 } catch e { }", "try { } catch e { } finally { }", "try { throw 1 } catch e { } finally { }",
+    "func() { }()", "func() { if false { } else if false { } }()",
+]
 
 
 def run(tier, seed, replay=None):
